@@ -22,6 +22,7 @@ type HistorySummary struct {
 	Cfg    Config
 	Stats  *Stats
 	Failed bool
+	Head   []string // first steps, for evidence samples
 }
 
 // RunPool runs the histories on `workers` lab SUT processes (one per worker,
@@ -63,7 +64,11 @@ func RunPool(ws *sut.Workspace, bin string, opts sut.LabOpts, cfgs []Config, wor
 				mu.Lock()
 				res.Histories++
 				res.Stats.Merge(r.Stats)
-				res.PerHistory = append(res.PerHistory, HistorySummary{cfg, r.Stats, r.Fail != nil})
+				head := r.Hist
+				if len(head) > 14 {
+					head = head[:14]
+				}
+				res.PerHistory = append(res.PerHistory, HistorySummary{cfg, r.Stats, r.Fail != nil, append([]string(nil), head...)})
 				if r.Inconclusive != "" {
 					res.Inconclusive = append(res.Inconclusive, cfg.String()+": "+r.Inconclusive)
 				}
